@@ -100,14 +100,16 @@ def label(tree):
 
 
 WORDS = ['wa', 'wb']
+# block keywords used as ordinary ARGUMENTS of commands (layout 2): they must not be taken as block structure
+KEYWORD_ARGS = ['if', 'fi', 'done', 'for', 'while', 'else', 'do', 'then', 'break', 'continue', 'in', 'function']
 
 
 def render(tree, semi, layout):
     lines = []
-    ind_unit = '    ' if layout == 0 else '\t'
+    ind_unit = '    ' if layout in (0, 2) else '\t'
 
     def emit(s, depth):
-        lines.append((ind_unit * depth if layout == 0 else (ind_unit * depth if depth % 2 else '')) + s)
+        lines.append((ind_unit * depth if layout in (0, 2) else (ind_unit * depth if depth % 2 else '')) + s)
         if layout == 1 and len(lines) % 3 == 0:
             lines.append('')
 
@@ -118,7 +120,10 @@ def render(tree, semi, layout):
     def stmt(s, depth):
         if s[0] == 'cmd':
             vars_ = ' '.join('"$v%d"' % k for k in range(1, s[2] + 1))
-            emit(('vh-mark %d 0 %s' % (s[1], vars_)).rstrip(), depth)
+            kw = ''
+            if layout == 2:
+                kw = ' ' + ' '.join(KEYWORD_ARGS[(s[1] + k) % len(KEYWORD_ARGS)] for k in range(1 + s[1] % 3))
+            emit(('vh-mark %d 0 %s' % (s[1], vars_)).rstrip() + kw, depth)
         elif s[0] in ('break', 'continue'):
             emit(s[0], depth)
         elif s[0] == 'if':
@@ -216,7 +221,7 @@ def run_script(job):
         trace = []
         for x in r.records:
             if x.get('k') == 'mark':
-                trace.append(('mark', int(x['argv'][0]), tuple(x['argv'][2:])))
+                trace.append(('mark', int(x['argv'][0]), tuple(a for a in x['argv'][2:] if a not in KEYWORD_ARGS)))
             elif x.get('k') == 'cond':
                 trace.append(('cond', int(x['argv'][0]), x['pos']))
         return {'trace': trace, 'status': r.status, 'timed_out': r.timed_out, 'err': r.err.decode('utf-8', 'replace')[-300:]}
@@ -256,6 +261,7 @@ def run(rep, tier):
         'conditions are the helper vh-cond (scripted answers, default false after the explored prefix so that every loop ends); commands are vh-mark with the loop variables as arguments',
         'for lists over 0..2 literal words (0 words written as an unset variable); trees larger than the bound are not explored',
         'negatives: one block keyword line (head, fi, done) deleted from each tree with <= 3 nodes',
+        'a third rendering gives every command one to three block keywords (if fi done for while else do then break continue in function) as ordinary arguments',
     ]
     trees = []
     small = []
@@ -284,6 +290,8 @@ def run(rep, tier):
             variants = [(semi, layout)]
             if len(ans) == 0 or tier == 'thorough':
                 variants.append((not semi, 1 - layout))
+            if len(ans) <= 1 or tier == 'thorough':
+                variants.append((semi, 2))          # commands carry block keywords as arguments
             for sm, lo in variants:
                 jobs.append((render(t, sm, lo), ans))
                 meta.append((t, ans, tr, sm))
